@@ -16,7 +16,7 @@ import (
 func TestMain(m *testing.M) {
 	kit.Main(m, "C15", "exploration",
 		"cache.New through its public builder with an injected Clock. (1) EXHAUSTIVE: every sequence up to length L (quick 5, thorough 6 and 7 for capacities 1-2; asynchronous mode 4 / 5) over {Set k (fresh value), Get k, Delete k} x 3 keys, clock advance (0.6 x expiry), Close, for all four policies x capacities 1..3 x expiry on/off; "+
-			"(2) rapid: long sequences (up to 300 / 2000 operations, key universe = capacity + 3, incl. GetOrPanic) over capacities 1..6, 99, 100, 101, 199, 200, all policies, with/without expiry (also the usual 'never' value, the largest Duration), synchronous and asynchronous eviction; (2b) runs of 8-20 x capacity operations at capacities 100 / 101 / 128 so that the frequency-sketch policies complete several sample periods; (2c) 2-6 goroutines doing Get / Set (run-unique values) / Delete on caches of capacity 1-3 and 100: no panic, no deadlock, no value notified twice, hits return values set for that key, at most capacity entries at quiescence, Close notifies exactly the residents (the package documents the cache as safe for concurrent access); (3) thorough: the same property under go test -fuzz via rapid.MakeFuzz. "+
+			"(2) rapid: long sequences (up to 300 / 2000 operations, key universe = capacity + 3, incl. GetOrPanic) over capacities 1..6, 99, 100, 101, 199, 200, all policies, with/without expiry (10 s, 2.5 s, and the usual 'never' value, the largest Duration; clock steps of whole seconds and of seconds plus 100-999 ms), synchronous and asynchronous eviction; (2b) runs of 8-20 x capacity operations at capacities 100 / 101 / 128 so that the frequency-sketch policies complete several sample periods; (2c) 2-6 goroutines doing Get / Set (run-unique values) / Delete on caches of capacity 1-3 and 100: no panic, no deadlock, no value notified twice, hits return values set for that key, at most capacity entries at quiescence, Close notifies exactly the residents (the package documents the cache as safe for concurrent access); (3) thorough: the same property under go test -fuzz via rapid.MakeFuzz. "+
 			"Oracle: a reference model that owns presence through the callbacks (present = set - deleted - notified): Len = |present| <= capacity after every operation; Get hits with the last value iff present; a miss of a present key is legal only by expiry and must be notified in that call; "+
 			"no callback for an absent key, no second callback for one residence, callback value = value held; Close notifies every remaining entry exactly once and the cache is inert afterwards; LRU victim = least recently used (exact), LFU victim has minimal use count (ties free), "+
 			"SLRU victims consistent with a segmented LRU for some split into two non-empty segments (protected size 1..capacity-1; capacity 1: one segment); every operation under a 20 s deadlock watchdog, any panic is a violation. "+
@@ -125,7 +125,7 @@ func drawCase(t *rapid.T, maxOps int) (config, []op) {
 	cfg := config{
 		policy:   rapid.SampledFrom(policies).Draw(t, "policy"),
 		capacity: rapid.SampledFrom(capacities).Draw(t, "capacity"),
-		expiry:   rapid.SampledFrom([]time.Duration{0, 0, 10 * time.Second, 10 * time.Second, time.Duration(math.MaxInt64)}).Draw(t, "expiry"),
+		expiry:   rapid.SampledFrom([]time.Duration{0, 0, 10 * time.Second, 10 * time.Second, 2500 * time.Millisecond, time.Duration(math.MaxInt64)}).Draw(t, "expiry"),
 		sync:     rapid.IntRange(0, 3).Draw(t, "async") != 0,
 	}
 	keys := cfg.capacity + 3
@@ -154,7 +154,11 @@ func drawCase(t *rapid.T, maxOps int) (config, []op) {
 				o = op{kind: opDelete, key: k}
 			case c < 98:
 				if cfg.expiry > 0 {
-					o = op{kind: opAdvance, dur: time.Duration(rapid.IntRange(1, 12).Draw(t, "secs")) * time.Second}
+					// whole seconds and steps that end between two seconds (expiry is a Duration, not a count of seconds)
+					o = op{kind: opAdvance, dur: time.Duration(rapid.IntRange(0, 12).Draw(t, "secs"))*time.Second + rapid.SampledFrom([]time.Duration{0, 0, 100 * time.Millisecond, 400 * time.Millisecond, 500 * time.Millisecond, 999 * time.Millisecond}).Draw(t, "millis")}
+					if o.dur == 0 {
+						o.dur = time.Second
+					}
 				} else {
 					o = op{kind: opGet, key: k}
 				}
